@@ -78,7 +78,7 @@ __CPROVER_ensures(__CPROVER_return_value == 0 || __CPROVER_return_value == -1)
 __CPROVER_ensures(IMPLIES(__CPROVER_return_value != 0,
 	verif_st->numobjs == __CPROVER_old(verif_st->numobjs) &&
 	verif_st->event_count == __CPROVER_old(verif_st->event_count) &&
-	g_rx_on == __CPROVER_old(g_rx_on) && g_raw_registered == __CPROVER_old(g_raw_registered)))	/* [C07] a failed registration leaves the loop exactly as it was */
+	g_rx_on == __CPROVER_old(g_rx_on) && g_raw_registered == __CPROVER_old(g_raw_registered)))	/* [C07,C08] a failed registration leaves the loop exactly as it was (object count, event count, transports): a later registration arms the wake-up transport afresh */
 __CPROVER_ensures(IMPLIES(__CPROVER_return_value == 0,
 	verif_st->event_count == __CPROVER_old(verif_st->event_count) + 1 &&
 	verif_st->numobjs == __CPROVER_old(verif_st->numobjs) + 1 + (__CPROVER_old(verif_st->event_count) == 0 ? 1 : 0)))	/* [C07] accounting: the event, plus one object for the wake-up transport when it is switched on */
